@@ -69,6 +69,42 @@ type skelWalker struct {
 	p    *pkgSrc
 	tags map[string]bool
 	seq  *[]string // when set, every tag is also appended here in source order
+	// inl, when set, renders the body of an inlined helper in place (ordered mode); otherwise the walker
+	// walks the helper's body itself (set mode)
+	inl   func(fd *ast.FuncDecl, deferred bool)
+	depth int
+}
+
+// helperOf resolves a call to a helper of the package that is not itself a function of the skeleton and
+// is not reported as a `call X`: its synchronisation primitives count as the caller's (a primitive moved
+// into a new helper, or a helper's body moved into its only caller, is the same skeleton).
+func (w *skelWalker) helperOf(c *ast.CallExpr) *ast.FuncDecl {
+	var cands []*ast.FuncDecl
+	switch f := c.Fun.(type) {
+	case *ast.Ident:
+		if fd, ok := w.p.funcs[f.Name]; ok && !skelFuncs[f.Name] {
+			cands = append(cands, fd)
+		}
+	case *ast.SelectorExpr:
+		for k, fd := range w.p.funcs {
+			if strings.HasSuffix(k, "."+f.Sel.Name) && !skelFuncs[k] {
+				cands = append(cands, fd)
+			} else if strings.HasSuffix(k, "."+f.Sel.Name) {
+				return nil // a skeleton function of that name exists: not ours to guess
+			}
+		}
+	}
+	if len(cands) != 1 || cands[0].Body == nil {
+		return nil
+	}
+	return cands[0]
+}
+
+// hasPrimitive: does the helper's body (helpers it calls included) hold a synchronisation primitive?
+func (w *skelWalker) hasPrimitive(fd *ast.FuncDecl) bool {
+	w2 := &skelWalker{p: w.p, tags: map[string]bool{}, depth: w.depth + 1}
+	w2.walk(fd.Body, funcKey(fd))
+	return len(w2.tags) > 0
 }
 
 func (w *skelWalker) tag(s string, deferred bool) {
@@ -148,6 +184,19 @@ func (w *skelWalker) call(c *ast.CallExpr, deferred bool) {
 		} else {
 			w.tag("call "+name, deferred)
 		}
+		return
+	}
+	if w.depth >= 3 {
+		return
+	}
+	if fd := w.helperOf(c); fd != nil && w.hasPrimitive(fd) {
+		if w.inl != nil {
+			w.inl(fd, deferred)
+			return
+		}
+		w.depth++
+		w.walk(fd.Body, funcKey(fd))
+		w.depth--
 	}
 }
 
@@ -267,9 +316,14 @@ func (w *skelWalker) reads(e ast.Expr) {
 // synchronise can change freely.
 
 type ordWalker struct {
-	p   *pkgSrc
-	fn  string
-	out []string
+	p     *pkgSrc
+	fn    string
+	out   []string
+	depth int
+	// inReturn: the expression being rendered is the result of a return statement: the returns of a helper
+	// inlined there are returns of the caller
+	inReturn bool
+	inlined  bool
 }
 
 var structTok = map[string]bool{"if{": true, "}else{": true, "}": true, "for{": true, "select{": true, "switch{": true, "case:": true, "defer{": true}
@@ -278,7 +332,28 @@ func (o *ordWalker) flat(n ast.Node) {
 	if n == nil {
 		return
 	}
-	w := &skelWalker{p: o.p, tags: map[string]bool{}, seq: &o.out}
+	w := &skelWalker{p: o.p, tags: map[string]bool{}, seq: &o.out, depth: o.depth}
+	w.inl = func(fd *ast.FuncDecl, deferred bool) {
+		o.depth++
+		inRet := o.inReturn
+		if deferred {
+			o.inReturn = false
+			m := o.open("defer{")
+			o.stmt(fd.Body)
+			if n := len(o.out); n > 0 && o.out[n-1] == "return" {
+				o.out = o.out[:n-1]
+			}
+			o.close(m)
+		} else {
+			o.stmt(fd.Body)
+			if n := len(o.out); !inRet && n > 0 && o.out[n-1] == "return" {
+				o.out = o.out[:n-1] // the helper's closing return ends the helper, not the caller
+			}
+			o.inlined = true
+		}
+		o.inReturn = inRet
+		o.depth--
+	}
 	w.walk(n, o.fn)
 }
 
@@ -379,10 +454,18 @@ func (o *ordWalker) stmt(s ast.Stmt) {
 		}
 		o.close(m)
 	case *ast.ReturnStmt:
+		saved, savedInl := o.inReturn, o.inlined
+		o.inlined = false
 		for _, e := range s.Results {
+			_, isCall := e.(*ast.CallExpr)
+			o.inReturn = isCall
 			o.flat(e)
 		}
-		o.out = append(o.out, "return")
+		o.inReturn = saved
+		if n := len(o.out); !(o.inlined && n > 0 && o.out[n-1] == "return") {
+			o.out = append(o.out, "return")
+		}
+		o.inlined = savedInl
 	case *ast.DeferStmt:
 		if fl, ok := s.Call.Fun.(*ast.FuncLit); ok {
 			m := o.open("defer{")
@@ -398,8 +481,43 @@ func (o *ordWalker) stmt(s ast.Stmt) {
 	}
 }
 
+// normalise removes two shapes that differ only in how a primitive-free return is written:
+//
+//	if{ return } return   ≡  return          (`if err != nil { return n, err }; return n, nil` vs `return n, err`)
+//	if{ if{ return } }    ≡  if{ return }    (a conditional return under two conditions vs one)
+func normalise(t []string) []string {
+	splice := func(t []string, i, n int, repl ...string) []string {
+		out := append([]string{}, t[:i]...)
+		out = append(out, repl...)
+		return append(out, t[i+n:]...)
+	}
+	for changed := true; changed; {
+		changed = false
+		for i := 0; i+3 < len(t); i++ {
+			if t[i] == "if{" && t[i+1] == "return" && t[i+2] == "}" && t[i+3] == "return" {
+				t = splice(t, i, 4, "return")
+				changed = true
+				break
+			}
+		}
+		for i := 0; i+4 < len(t); i++ {
+			if t[i] == "if{" && t[i+1] == "if{" && t[i+2] == "return" && t[i+3] == "}" && t[i+4] == "}" {
+				t = splice(t, i, 5, "if{", "return", "}")
+				changed = true
+				break
+			}
+		}
+	}
+	return t
+}
+
 func genSkeletonOrdered(p *pkgSrc) map[string][]string {
 	res := map[string][]string{}
+	defer func() {
+		for k, v := range res {
+			res[k] = normalise(v)
+		}
+	}()
 	for name, fd := range p.funcs {
 		if !skelFuncs[name] || fd.Body == nil {
 			continue
